@@ -752,6 +752,8 @@ class ExprMixin(object):
         """An attribute of an abstract object that is only passed around (e.g. a factory's callback methods stored in
         a token): an abstract value of the sort `<Sort>.<attr>`, determined by the object (uninterpreted function).
         Only for sorts the contract lists in `S.abs_attrs` - anything else stays outside the subset."""
+        if obj.ty.name == "BinStr" and attr == "count":
+            return Val(TFun(), None, ("spec", "__bincount", obj))
         allowed = getattr(self.spec, "abs_attrs", {})
         if isinstance(obj.ty, TAbs) and attr in allowed.get(obj.ty.name, {}):
             rty = TAbs(allowed[obj.ty.name][attr])          # {sort: {attribute: result sort}}
